@@ -1,4 +1,88 @@
-From Mammoth Require Import Tables.
-Example c09_placeholder : row_spans [] = [].
-Proof. reflexivity. Qed.
-Print Assumptions c09_placeholder.
+(* C09 — tables keep their grid: rows, cells, spans and header rows. *)
+From Mammoth Require Import Tables TablesFacts Convert ConvertSpec ConvertRules.
+Local Open Scope N_scope.
+
+(* THE grid theorem, for every well-formed tiling encoding of any size: laying out the cells that the
+   vMerge sweep keeps, with the colspans and rowspans it assigns, by the HTML table algorithm covers
+   every grid position with the cell that owns it in the document — no overlap, no gap *)
+Theorem C09_rowspans_layout (W : N) (rows : list (list icell)) :
+  wf_tiling W rows = true ->
+  html_layout (N.to_nat W) (row_spans rows) = Some (doc_grid rows []).
+Proof. exact (rowspans_layout W rows). Qed.
+
+(* one output row per input row; the cells kept are exactly the non-continuation cells, in order,
+   with colspan = gridSpan *)
+Theorem C09_cells_kept (W : N) (rows : list (list icell)) :
+  wf_tiling W rows = true ->
+  map (map oc_id) (row_spans rows) = map (fun r => map ic_id (filter (fun c => negb (ic_cont c)) r)) rows
+  /\ Forall2 (fun orow irow => Forall (fun oc => exists ic, In ic irow /\ ic_id ic = oc_id oc /\ ic_span ic = oc_colspan oc) orow)
+             (row_spans rows) rows.
+Proof. exact (rowspans_rows W rows). Qed.
+
+Section Structure.
+  Variable o : copts.
+  Variable cm : list comment.
+
+  (* every cell yields one th (in header context) or td, with colspan / rowspan attributes exactly when they differ from 1 *)
+  Theorem C09_cell cs colspan rowspan hdr st :
+    visit o cm (DTableCell cs colspan rowspan) hdr st =
+    match visit_list o cm cs hdr st with
+    | Ok (content, st') =>
+        Ok ([Elem (plain_tag (if hdr then [116;104] else [116;100])
+                     ((if N.eqb colspan 1 then [] else [([99;111;108;115;112;97;110], str_of_N colspan)])
+                      ++ (if N.eqb rowspan 1 then [] else [([114;111;119;115;112;97;110], str_of_N rowspan)])))
+                  (Force :: content)], st')
+    | LineError => LineError
+    | Crash w => Crash w
+    end.
+  Proof. exact (visit_cell_eq o cm cs colspan rowspan hdr st). Qed.
+
+  (* every row yields one tr *)
+  Theorem C09_row cs h hdr st :
+    visit o cm (DTableRow cs h) hdr st =
+    match visit_list o cm cs hdr st with
+    | Ok (content, st') => Ok ([Elem (plain_tag [116;114] []) (Force :: content)], st')
+    | LineError => LineError
+    | Crash w => Crash w
+    end.
+  Proof. exact (visit_row_eq o cm cs h hdr st). Qed.
+
+  (* the leading header rows go to thead (cells th), the rest to tbody (cells td); no thead/tbody without a leading header row *)
+  Theorem C09_table cs sid sname hdr st l :
+    table_path o sid sname = PElems l ->
+    visit o cm (DTable cs sid sname) hdr st =
+    match take_heads cs with
+    | [] =>
+        match visit_list o cm cs false st with
+        | Ok (content, st') => Ok (wrap_elems l (Force :: content), st')
+        | LineError => LineError
+        | Crash w => Crash w
+        end
+    | heads =>
+        match visit_list o cm heads true st with
+        | Ok (h, st1) =>
+            match visit_list o cm (drop_heads cs) false st1 with
+            | Ok (b, st2) => Ok (wrap_elems l [Force; Elem (plain_tag [116;104;101;97;100] []) h;
+                                                Elem (plain_tag [116;98;111;100;121] []) b], st2)
+            | LineError => LineError
+            | Crash w => Crash w
+            end
+        | LineError => LineError
+        | Crash w => Crash w
+        end
+    end.
+  Proof. exact (visit_table_eq o cm cs sid sname hdr st l). Qed.
+End Structure.
+
+(* non-vacuity: a 3-column tiling with a 2x2 block, and a row made only of continuations *)
+Example C09_witness :
+  let rows := [[IC 2 false 1; IC 1 false 2]; [IC 2 true 3; IC 1 false 4]; [IC 1 false 5; IC 1 false 6; IC 1 true 7]] in
+  wf_tiling 3 rows = true /\
+  row_spans rows = [[OC 1 2 2; OC 2 1 1]; [OC 4 1 2]; [OC 5 1 1; OC 6 1 1]].
+Proof. vm_compute. split; reflexivity. Qed.
+
+Print Assumptions C09_rowspans_layout.
+Print Assumptions C09_cells_kept.
+Print Assumptions C09_cell.
+Print Assumptions C09_row.
+Print Assumptions C09_table.
